@@ -46,6 +46,30 @@ def deserialize (sep : Bytes) (tok : Bytes) : Option (Bytes × Bytes) :=
   | none => none
   | some (u, t) => if u = [] then none else some (u, t)
 
+/-! ### ReadChanges token gate (pkg/server/commands/read_changes.go, `Execute` up to the backend call) -/
+
+/-- What `ReadChangesQuery.Execute` does with the (already decoded) token and the request's type filter:
+an empty token starts from the beginning (or the request's start time), an undecipherable one is
+`ErrInvalidContinuationToken`, one issued for another type filter is `ErrMismatchObjectType`, otherwise
+the backend is asked to continue after `u`. -/
+inductive Gate where
+  | start
+  | invalid
+  | mismatch
+  | resume (u : Bytes)
+  deriving DecidableEq, Repr
+
+def rcGate (sep : Bytes) (tok reqType : Bytes) : Gate :=
+  if tok = [] then .start
+  else match deserialize sep tok with
+    | none => .invalid
+    | some (u, t) => if t ≠ reqType then .mismatch else .resume u
+
+/-- The token the query issues for the next page: `Serialize(contUlid, req.GetType())`; no token when the
+backend reports no further position. -/
+def rcIssue (sep : Bytes) (contUlid reqType : Bytes) : Option Bytes :=
+  if contUlid = [] then some [] else serialize sep contUlid reqType
+
 /-! ### base64, URL alphabet, '=' padding, Go's lenient decoder -/
 
 def alphabet : List UInt8 :=
